@@ -32,7 +32,9 @@ func backendFiles(f string) bool {
 	return !strings.HasSuffix(f, "_test.go") && (strings.Contains(f, "/internal/cpp/") || strings.Contains(f, "/internal/python/") || strings.Contains(f, "/internal/matlab/") || strings.Contains(f, "/internal/ndjsoncommon/") || strings.Contains(f, "/internal/formatting/") || strings.Contains(f, "/internal/iocommon/"))
 }
 
-func topoSortFiles(f string) bool { return strings.HasSuffix(f, "/pkg/dsl/validation_topological_sort.go") }
+func topoSortFiles(f string) bool {
+	return strings.HasSuffix(f, "/pkg/dsl/validation_topological_sort.go")
+}
 
 func dslValidationFiles(f string) bool {
 	return strings.Contains(f, "/pkg/dsl/validation") || strings.HasSuffix(f, "/pkg/dsl/yaml.go")
